@@ -22,11 +22,36 @@ SrgbTfBits1(e, lin) ==
   IN IF FxLt(e, FxSub(join, FxEps(20))) THEN lo
      ELSE LET hi == AgreeBits(SrgbLin(e), lin, FxOne) IN IF FxLt(FxAdd(join, FxEps(20)), e) THEN hi ELSE IF lo >= hi THEN lo ELSE hi
 SrgbTfBits(e, lin) == IF e[1] * lin[1] < 0 THEN AgreeBits(e, lin, FxOne) ELSE SrgbTfBits1(FxAbs(e), FxAbs(lin))
+(* the transfer curves of the other standards, encoded -> linear, for encoded values in [0, 1] (real powers as above):
+     Adobe RGB (1998): e^(563/256);  ProPhoto / ROMM: e / 16 below 1/32, else e^1.8;  DCI-P3: e^2.6;  Display P3: the sRGB curve;
+     ITU-R BT.709 / BT.2020: e / 4.5 below 4.5 beta, else ((e + alpha - 1) / alpha)^(1/0.45), alpha = 1.09929682680944, beta = 0.018053968510807 *)
+PowP5(x, num, den) == IF x[1] <= 0 THEN FxZero ELSE FxOfP(ExpP(PMul(PRat(num, den, TfFl), LnP(POfFx(x, TfFl), TfFl), TfFl), TfFl), TfFl)
+RecAlpha == FxDec(1, 1, <<992, 9682, 6809, 4400>>)
+RecBeta45 == FxMul(FxRat(45, 10), FxDec(1, 0, <<180, 5396, 8510, 8070>>))
+TfPieces(std, e) ==      \* <<join (encoded), value below the join, value above it>>
+  CASE std = "srgb" -> <<FxRat(4045, 100000), FxDiv(e, FxRat(1292, 100)), SrgbLin(e)>>
+    [] std = "adobe" -> <<FxZero, FxZero, PowP5(e, 563, 256)>>
+    [] std = "prophoto" -> <<FxRat(1, 32), FxDivInt(e, 16), PowP5(e, 18, 10)>>
+    [] std = "dci" -> <<FxZero, FxZero, PowP5(e, 26, 10)>>
+    [] std = "rec" -> <<RecBeta45, FxDiv(e, FxRat(45, 10)), PowP5(FxDiv(FxAdd(e, FxSub(RecAlpha, FxOne)), RecAlpha), 100, 45)>>
+TfBits(std, e, lin) ==
+  IF FxIsNeg(e) \/ FxIsNeg(lin) THEN 999                      \* outside [0, 1]: the odd extension is C05's
+  ELSE LET p == TfPieces(std, e)
+           lo == AgreeBits(p[2], lin, FxOne)  hi == AgreeBits(p[3], lin, FxOne)
+       IN IF FxLt(e, FxSub(p[1], FxEps(20))) THEN lo ELSE IF FxLt(FxAdd(p[1], FxEps(20)), e) THEN hi ELSE IF lo >= hi THEN lo ELSE hi
+TfBits3(std, enc, lin) == Min3i(TfBits(std, enc[1], lin[1]), TfBits(std, enc[2], lin[2]), TfBits(std, enc[3], lin[3]))
+StdOfEnc(n) == CASE n \in {"srgb", "p3"} -> "srgb" [] n = "adobe" -> "adobe" [] n = "prophoto" -> "prophoto" [] n = "dcip3" -> "dci"
+                 [] n \in {"rec709", "rec2020"} -> "rec" [] OTHER -> ""
+LinOfEnc(n) == CASE n = "srgb" -> "linsrgb" [] n = "rec709" -> "linsrgb" [] n = "p3" -> "linp3" [] n = "adobe" -> "linadobe"
+                 [] n = "prophoto" -> "linprophoto" [] n = "dcip3" -> "lindcip3" [] n = "rec2020" -> "linrec2020" [] OTHER -> ""
+
 CrossTfBits(enc, lin) == Min3i(SrgbTfBits(enc[1], lin[1]), SrgbTfBits(enc[2], lin[2]), SrgbTfBits(enc[3], lin[3]))
 
 (* which relation, and oriented how: <<name, first argument, second argument>> *)
 EdgeBits(a, b, in, out) ==
-  CASE a = "linsrgb" /\ b = "xyz" -> MatBits(K.rgb2xyz, in, out)
+  CASE StdOfEnc(a) # "" /\ b = LinOfEnc(a) -> TfBits3(StdOfEnc(a), in, out)           \* encoded -> linear of the same primaries
+    [] StdOfEnc(b) # "" /\ a = LinOfEnc(b) -> TfBits3(StdOfEnc(b), out, in)           \* linear -> encoded
+    [] a = "linsrgb" /\ b = "xyz" -> MatBits(K.rgb2xyz, in, out)
     [] a = "xyz" /\ b = "linsrgb" -> MatBits(K.xyz2rgb, in, out)
     [] a = "xyz" /\ b = "lab" -> LabBits(in, out)
     [] a = "lab" /\ b = "xyz" -> LabBits(out, in)
